@@ -78,13 +78,16 @@ class Replayer:
     def settings_for(self, op, d, seed):
         key = (op, d, seed)
         if key not in self.settings:
-            algo = {"Fit": "mcmc_saem", "PersoScipy": "scipy_minimize", "PersoMean": "mean_posterior", "PersoMode": "mode_posterior"}[op]
+            algo = {"Fit": "mcmc_saem", "PersoScipy": "scipy_minimize", "PersoScipyCustom": "scipy_minimize", "PersoMean": "mean_posterior",
+                    "PersoMode": "mode_posterior"}[op]
             kw = dict(seed=SEED_BASE + seed, progress_bar=False)
+            if op == "PersoScipyCustom":
+                kw.update(use_jacobian=False, custom_scipy_minimize_params=dict(method="Powell", options=dict(maxiter=2)))
             if op == "Fit":
                 kw["n_iter"] = 4
-            elif op != "PersoScipy":
+            elif op not in ("PersoScipy", "PersoScipyCustom"):
                 kw["n_iter"] = 5
-            if d == "D2" and op != "PersoScipy":
+            if d == "D2" and op not in ("PersoScipy", "PersoScipyCustom"):
                 kw["annealing"] = dict(do_annealing=True, initial_temperature=5.0, n_plateau=2, n_iter=None, n_iter_frac=0.5)
             self.settings[key] = AlgorithmSettings(algo, **kw)
         return self.settings[key]
@@ -199,7 +202,14 @@ class Replayer:
                         est = model.estimate(tp, ips)
                         result = _h(*[est[i] for i in sorted(est)])
                         inputs_ok = tp == tsnap
-                    elif op in ("PersoScipy", "PersoMean", "PersoMode"):
+                    elif op == "EstimateFrame":
+                        ips = self.fixed_ips(model)
+                        tp = {"a": [70.0, 75.5, 64.0], "b": [72.25]}        # the caller's own mapping of plain lists
+                        tsnap = copy.deepcopy(tp)
+                        est = model.estimate(tp, ips, to_dataframe=True)
+                        result = _h(est.values.astype(float), np.array([str(i) for i in est.index], dtype="U"))
+                        inputs_ok = repr(tp) == repr(tsnap) and type(tp["a"]) is list and type(tp["b"]) is list
+                    elif op in ("PersoScipy", "PersoMean", "PersoMode", "PersoScipyCustom"):
                         # D1: a Data object kept by the caller (the fit receives the table), D2: a Dataset object
                         df = self.data_d1 if call[1] == "D1" else self.inputs[call[1]]
                         snap = self.snap(df)
@@ -211,6 +221,16 @@ class Replayer:
                         inputs_ok = self.same(snap, df) and self.same(psnap, vars(settings))
                     elif op == "Simulate" and type(model).__name__ != "LogisticModel":
                         pass          # simulation is defined for logistic models only (C18): nothing is called, nothing may change
+                    elif op == "SimulateTable" and type(model).__name__ != "LogisticModel":
+                        pass
+                    elif op == "SimulateTable":
+                        tab = pd.DataFrame({"ID": [11, 11, 12, 12, 12], "TIME": [70.0, 71.5, 68.25, 69.0, 72.125]})
+                        vp = {"visit_type": "dataframe", "df_visits": tab}
+                        tsnap, dsnap = tab.copy(deep=True), list(tab.dtypes)
+                        res = model.simulate(algorithm="simulate", features=list(model.features), visit_parameters=vp, seed=SEED_BASE + call[1])
+                        df_sim = res.data.to_dataframe()
+                        result = _h(df_sim[list(model.features)].values, df_sim["TIME"].values)
+                        inputs_ok = tab.equals(tsnap) and list(tab.dtypes) == dsnap and list(tab.columns) == list(tsnap.columns) and vp["df_visits"] is tab
                     elif op == "Simulate":
                         vp = {"patient_number": 3, "visit_type": "random", "first_visit_mean": 0.0, "first_visit_std": 0.4,
                               "time_follow_up_mean": 4, "time_follow_up_std": 0.5, "distance_visit_mean": 1.0,
@@ -262,7 +282,7 @@ class Replayer:
                 return k, f"after {call}: population variables at prior modes = {pop_at_mode(model)}, specification says {st['pop']}", history
             if not inputs_ok:
                 return k, f"after {call}: a caller-owned input object was modified", history
-            if op in ("Estimate", "PersoScipy", "PersoMean", "PersoMode", "Simulate"):
+            if op in ("Estimate", "EstimateFrame", "PersoScipy", "PersoScipyCustom", "PersoMean", "PersoMode", "Simulate", "SimulateTable"):
                 left = self.leftover(model)
                 if left:
                     return k, f"after {call}: data or latent values of the call left behind in the model: {left}", history
@@ -280,7 +300,7 @@ class Replayer:
         return None
 
 
-N_SCRIPTS = 8
+N_SCRIPTS = 10
 
 
 def simulate_behaviours(outdir, num, depth, seed, seeds="{0}"):
